@@ -559,6 +559,10 @@ class HistogramBase(abc.ABC):
             self._binnings = merged._binnings
             self._frequencies = merged._frequencies
             self._errors2 = merged._errors2
+            if merged.dtype != self.dtype:
+                # The sums did not fit the content type
+                self._dtype = merged._dtype
+                self._missed = merged._missed
         else:
             axis = self._get_axis(axis)
             if amount is not None:
